@@ -14,6 +14,16 @@ BUILTIN = {"builtins.str": str, "builtins.bytes": bytes, "builtins.list": list,
            "builtins.range": range, "builtins.bytearray": bytearray}
 
 
+def same_class(c, pytd_name):
+  """Run-time class c is the class the stub calls pytd_name: qualified names
+  agree (Outer.Node is not Node); classes local to a function are compared by
+  their last component."""
+  q = c.__qualname__
+  if "<locals>" in q:
+    return c.__name__ == pytd_name.split(".")[-1]
+  return q == pytd_name or "m." + q == pytd_name
+
+
 class Oracle:
 
   def __init__(self):
@@ -52,8 +62,7 @@ class Oracle:
       if n.startswith("builtins.") or n.startswith("typing."):
         self.unmodelled.append(n)
         return True
-      short = n.split(".")[-1]
-      return any(c.__name__ == short for c in type(v).__mro__)
+      return any(same_class(c, n) for c in type(v).__mro__)
     if isinstance(t, pytd.TupleType):
       return (isinstance(v, tuple) and len(v) == len(t.parameters) and
               all(self.admits(p, x) for p, x in zip(t.parameters, v)))
@@ -71,7 +80,7 @@ class Oracle:
             return issubclass(v, BUILTIN[p.name])
           if p.name in NUM:
             return issubclass(v, NUM[p.name][-1]) or issubclass(v, int)
-          return any(c.__name__ == short for c in v.__mro__)
+          return any(same_class(c, p.name) for c in v.__mro__)
         return True
       if b in ("builtins.list", "builtins.set", "builtins.frozenset",
                "builtins.tuple"):
@@ -86,7 +95,6 @@ class Oracle:
       if b.startswith("builtins.") or b.startswith("typing."):
         self.unmodelled.append(b)
         return True
-      short = b.split(".")[-1]
-      return any(c.__name__ == short for c in type(v).__mro__)
+      return any(same_class(c, b) for c in type(v).__mro__)
     self.unmodelled.append(type(t).__name__)
     return True
